@@ -84,7 +84,8 @@ Qed.
 Lemma gi_heap_children_ok i : idx i -> gi_heap_children i = Ok (children i).
 Proof.
   unfold idx. change (2^61) with 2305843009213693952. intros Hi.
-  unfold gi_heap_children, children. wr. f_equal. f_equal; lia.
+  unfold gi_heap_children, children. wr.
+  match goal with |- Ok (?a, ?b) = Ok (?c, ?d) => replace a with c by lia; replace b with d by lia; reflexivity end.
 Qed.
 
 Section OK.
